@@ -1,6 +1,6 @@
 \* C01/C02/C13 thorough: all 4-tx graph families, minimal lease dimension, 4 block heights.
 CONSTANTS
-  GraphIds = {1,2,3,4,5,6,7,8,9}
+  GraphIds = {1,2,3,4,5,6,7,8,9,12}
   MaxTip = 4
   Mat = 2
   LeaseIds = {1}
